@@ -560,8 +560,25 @@ def gen_reuse(env, tier, prop):
             c16.record_outputs(env, prop, r, out)
 
 
+def gen_stacked(env, tier, prop, n=None):
+    """the same shared aggregate on BOTH cubes over dimensions that carry extra axes - several such dimensions at once,
+    in any position (an array cube walks its sub-cubes over views of one strided copy of every dimension)"""
+    rnd, gen = env.rnd, env.gen
+    shapes = [(2,), (3,), (2,), (4,), (2, 3), (3, 2), (1, 4), (2, 1)]
+    for _ in range(n or (250 if tier == "quick" else 4000)):
+        nd = rnd.choice([2, 2, 3])
+        extra = [rnd.choice(shapes) if rnd.random() < 0.7 else () for _ in range(nd)]
+        if sum(1 for e in extra if e) < 2:
+            a, b = rnd.sample(range(nd), 2)
+            extra[a], extra[b] = rnd.choice(shapes[:4]), rnd.choice(shapes)
+        case = gen.shared_case(rnd.choice(cb.SHARED), nd=nd, maxrows=6, extra=extra)
+        env.run_xcube(prop, case, note="stacked on both cubes")
+        env.run_ccube(prop, case, note="stacked on both cubes")
+
+
 def gen_c03_all(env, tier):
     gen_c03(env, tier)
+    gen_stacked(env, tier, "C03")
     gen_live(env, tier, "C03")
     gen_live(env, tier, "C03", with_axes=True)
     gen_reuse(env, tier, "C03")
